@@ -1,4 +1,4 @@
-// vh is the implementation side of the correspondence checks: for every engine it can generate
+// Package sup is the shared part of the vh-<engine> binaries, the implementation side of the correspondence checks: for every engine it can generate
 // cases (`vh gen <engine> ...`), and run the real spok code on them (`vh exec <engine> in out`),
 // writing one line per case: `<case> | <what the implementation did>`.
 //
@@ -6,7 +6,7 @@
 // crash of the code under test (a panic in a goroutine, a SIGSEGV) is an observation about one
 // case, not the end of the run; children are recycled regularly because a failed parse leaks the
 // blocked lexer goroutine.
-package main
+package sup
 
 import (
 	"bufio"
@@ -21,20 +21,18 @@ import (
 	"time"
 )
 
-type engine struct {
+type Engine struct {
 	// gen writes cases, one per line, to w
-	gen func(w *bufio.Writer, args map[string]string)
+	Gen func(w *bufio.Writer, args map[string]string)
 	// work runs the implementation on one case and returns the observation (no newlines)
-	work func(c string) string
+	Work func(c string) string
 	// recycle: restart a worker after this many cases (0 = never)
-	recycle int
+	Recycle int
 	// per-case wall clock limit enforced by the supervisor
-	timeout time.Duration
+	Timeout time.Duration
 }
 
-var engines = map[string]*engine{}
-
-func argMap(args []string) map[string]string {
+func ArgMap(args []string) map[string]string {
 	m := map[string]string{}
 	for _, a := range args {
 		if i := strings.Index(a, "="); i > 0 {
@@ -44,7 +42,7 @@ func argMap(args []string) map[string]string {
 	return m
 }
 
-func atoi(s string, def int) int {
+func Atoi(s string, def int) int {
 	if s == "" {
 		return def
 	}
@@ -55,43 +53,38 @@ func atoi(s string, def int) int {
 	return n
 }
 
-func main() {
-	if len(os.Args) < 3 {
-		fmt.Fprintln(os.Stderr, "usage: vh gen|exec|worker <engine> ...")
+// Main is the entry point of every vh-<engine> binary: `gen k=v...`, `exec <in> <out> [j=N]`, `worker`.
+func Main(name string, e *Engine) {
+	if len(os.Args) < 2 {
+		fmt.Fprintln(os.Stderr, "usage: vh-"+name+" gen|exec|worker ...")
 		os.Exit(2)
 	}
-	mode, name := os.Args[1], os.Args[2]
-	e, ok := engines[name]
-	if !ok {
-		fmt.Fprintln(os.Stderr, "unknown engine", name)
-		os.Exit(2)
-	}
-	switch mode {
+	switch os.Args[1] {
 	case "gen":
 		w := bufio.NewWriterSize(os.Stdout, 1<<20)
-		e.gen(w, argMap(os.Args[3:]))
+		e.Gen(w, ArgMap(os.Args[2:]))
 		w.Flush()
 	case "worker":
 		worker(e)
 	case "exec":
-		if len(os.Args) < 5 {
-			fmt.Fprintln(os.Stderr, "usage: vh exec <engine> <in> <out> [j=N]")
+		if len(os.Args) < 4 {
+			fmt.Fprintln(os.Stderr, "usage: exec <in> <out> [j=N]")
 			os.Exit(2)
 		}
-		supervise(name, e, os.Args[3], os.Args[4], atoi(argMap(os.Args[5:])["j"], runtime.NumCPU()))
+		supervise(name, e, os.Args[2], os.Args[3], Atoi(ArgMap(os.Args[4:])["j"], runtime.NumCPU()))
 	default:
 		os.Exit(2)
 	}
 }
 
-func worker(e *engine) {
+func worker(e *Engine) {
 	in := bufio.NewReaderSize(os.Stdin, 1<<20)
 	out := bufio.NewWriter(os.Stdout)
 	for {
 		line, err := in.ReadString('\n')
 		if len(line) > 0 {
 			c := strings.TrimRight(line, "\n")
-			res := e.work(c)
+			res := e.Work(c)
 			out.WriteString(strings.ReplaceAll(res, "\n", " "))
 			out.WriteByte('\n')
 			out.Flush()
@@ -110,7 +103,7 @@ type child struct {
 }
 
 func startChild(name string) *child {
-	cmd := exec.Command(os.Args[0], "worker", name)
+	cmd := exec.Command(os.Args[0], "worker")
 	cmd.Stderr = io.Discard
 	stdin, _ := cmd.StdinPipe()
 	stdout, _ := cmd.StdoutPipe()
@@ -152,7 +145,7 @@ func (c *child) ask(line string, timeout time.Duration) (string, string) {
 	}
 }
 
-func supervise(name string, e *engine, inPath, outPath string, j int) {
+func supervise(name string, e *Engine, inPath, outPath string, j int) {
 	data, err := os.ReadFile(inPath)
 	if err != nil {
 		fmt.Fprintln(os.Stderr, "vh:", err)
@@ -181,7 +174,7 @@ func supervise(name string, e *engine, inPath, outPath string, j int) {
 		next = b
 		return a, b
 	}
-	timeout := e.timeout
+	timeout := e.Timeout
 	if timeout == 0 {
 		timeout = 20 * time.Second
 	}
@@ -201,7 +194,7 @@ func supervise(name string, e *engine, inPath, outPath string, j int) {
 					return
 				}
 				for i := a; i < b; i++ {
-					if c == nil || (e.recycle > 0 && c.served >= e.recycle) {
+					if c == nil || (e.Recycle > 0 && c.served >= e.Recycle) {
 						if c != nil {
 							c.stop()
 						}
